@@ -451,6 +451,10 @@ def soft_bridge(check, props=("GenBridge", "GenCorollaries", "GenMeanOutput")):
     merged = dict(getattr(check, "py2lean_report", {}) or {})
     merged.update(rep)
     check.py2lean_report = merged
+    note = ("statement-level translator tools/py2lean_eff.py with its vocabulary and totalisations (DESIGN.md section 8) — an ADDITIONAL, soft tie: "
+            "its output is proved equal to the hand-written model (see soft_ties); not needed for the claim")
+    if isinstance(getattr(check, "trusted", None), list) and note not in check.trusted:
+        check.trusted.append(note)
     ok = soft_stage(check, list(props), "explain_one / imputers regenerated statement by statement from the source = the hand-written model")
     check.extra["generated_explainer_bridge"] = {"status": "checked" if ok else "unavailable or broken (see soft_ties)",
                                                  "generated_from": {k: v["sha256"] for k, v in rep.items() if not v.get("error")},
